@@ -289,7 +289,8 @@ def rule_unsub(ctx):
               'unsubscribing removes the script hash from the subscriptions and the mempool statuses',
               f'unsubscribing does not clear both maps ({pops})', loc=ctx.loc(u, u.node))
     n += 1
-    hs = ctx.func('sess', 'ElectrumX.hashX_subscribe')
+    from . import c07
+    hs = c07.subscribe_site(ctx)
     cfg = ctx.cfg(hs)
     stores = [s for s in hs.own_nodes() if isinstance(s, ast.Assign) and isinstance(s.targets[0], ast.Subscript)
               and ctx.res.canon(s.targets[0].value, hs) == 'self.hashX_subs']
